@@ -117,6 +117,11 @@ func getFloatToIntFunction() schema.CallableFunction {
 				return math.MinInt64, nil
 			case math.IsNaN(a):
 				return math.MinInt64, fmt.Errorf("attempted to convert a NaN float to an integer")
+			case a >= math.MaxInt64:
+				// Finite values at or above 2^63 cannot be represented; saturate like +Inf.
+				return math.MaxInt64, nil
+			case a <= math.MinInt64:
+				return math.MinInt64, nil
 			}
 			return int64(a), nil
 		},
